@@ -2,8 +2,8 @@
    these definitions of /repo; tools/srcfacts.py regenerates their normal-form digests on every run (coq/Gen/Src_*.v).
    Statements only. *)
 From Coq Require Import List String.
-From ME Require Import Model.SrcExpected Gen.Src_fzip Gen.Src_fbase Gen.Src_fsequence Gen.Src_fcheck
-  Proofs.Src_ok_fzip Proofs.Src_ok_fbase Proofs.Src_ok_fsequence Proofs.Src_ok_fcheck.
+From ME Require Import Model.SrcExpected Gen.Src_fzip Gen.Src_fbase Gen.Src_fsequence Gen.Src_fcheck Gen.Src_common
+  Proofs.Src_ok_fzip Proofs.Src_ok_fbase Proofs.Src_ok_fsequence Proofs.Src_ok_fcheck Proofs.Src_ok_common.
 
 (* more_executors/_impl/futures/zip.py *)
 Theorem c15_source_fzip : Src_fzip.facts = expected_fzip.
@@ -17,8 +17,12 @@ Proof. exact src_fsequence_ok. Qed.
 (* more_executors/_impl/futures/check.py *)
 Theorem c15_source_fcheck : Src_fcheck.facts = expected_fcheck.
 Proof. exact src_fcheck_ok. Qed.
+(* more_executors/_impl/common.py *)
+Theorem c15_source_common : Src_common.facts = expected_common.
+Proof. exact src_common_ok. Qed.
 
 Print Assumptions c15_source_fzip.
 Print Assumptions c15_source_fbase.
 Print Assumptions c15_source_fsequence.
 Print Assumptions c15_source_fcheck.
+Print Assumptions c15_source_common.
